@@ -33,7 +33,23 @@ def run_case(run, drv, case, exp, want_full=True):
             if case["source"] != "own":
                 run.fail("spec-vs-ref", case, {"what": "reference encoder/verifier disagree"})
             return None
+        content0 = parent if case["via_parent"] else root
+        stamps = {}
+        if case.get("prime"):
+            # an earlier recheck of the intact payload in this process, then damage that keeps
+            # sizes and modification times: the second verdict must reflect the bytes on disk
+            try:
+                impl.recheck(mpath, content0)
+            except Exception:
+                pass
+            for base, _, fns in os.walk(parent):
+                for fn in fns:
+                    st = os.stat(os.path.join(base, fn))
+                    stamps[os.path.join(base, fn)] = (st.st_atime_ns, st.st_mtime_ns)
         rc.damage_disk(root, case["single"], state)
+        for path, ns in stamps.items():
+            if os.path.exists(path):
+                os.utime(path, ns=ns)
         if case["single"] and state[files[0][0]] is None:
             return None        # nothing to point recheck at
         ref = rc.reference(raw, case["single"], state, files)
@@ -63,6 +79,29 @@ def judge(run, case, res):
         run.fail("impl-vs-spec", case, {"why": "percentage", "impl": result, "ref": want})
 
 
+def zero_case(rng, tier):
+    """v1 payload with empty / all-zero files, damaged by removals and truncations that leave
+    every piece verifiable (absent data reads as zeros): the reference says such pieces still
+    verify, so the share must not drop."""
+    from harness.common import Blob
+    while True:
+        case = rc.make_case(rng, tier, damage=False)
+        if case["version"] == 1 and not case["single"]:
+            break
+    files = [(rel, cr.blob_from_token(t)) for rel, t in case["files"]]
+    for i, (rel, b) in enumerate(files):
+        if rng.random() < 0.5:
+            files[i] = (rel, Blob.zero(len(b)) if rng.random() < 0.7 else Blob.zero(0))
+    files.append(("zz-last-empty", Blob.zero(0)))
+    case["files"] = [(rel, b.token()) for rel, b in files]
+    if "v1_order" in case:
+        case["v1_order"] = case["v1_order"] + ["zz-last-empty"]
+    case["zero_ok"] = True
+    case["damage"] = rc.make_damage(rng, files, case["pl"], 1, False, rng.randrange(1, 4),
+                                    case.get("v1_order"), zero_ok=True)
+    return case
+
+
 def nontrivial(case):
     return len({op[1] for op in case["damage"]}) >= 2
 
@@ -79,9 +118,12 @@ def run(tier, seed, replay=None):
     exp = {}
     from harness.common import corpus_cases
     cases = [replay["case"]] if replay else corpus_cases("C16") + \
-        [rc.make_case(run.rng, tier, damage=(i % 5 != 0)) for i in range(200 if tier == "quick" else 1500)]
+        [rc.make_case(run.rng, tier, damage=(i % 5 != 0)) for i in range(200 if tier == "quick" else 1500)] + \
+        [zero_case(run.rng, tier) for _ in range(40 if tier == "quick" else 300)]
     import contextlib
-    for case in cases:
+    for i, case in enumerate(cases):
+        if not replay and i % 3 == 0:
+            case["prime"] = True
         with (rc.scaled(case["scaled"]) if case.get("scaled") else contextlib.nullcontext()):
             res = run_case(run, drv, case, exp)
             if res is not None and case.get("scaled"):
